@@ -463,6 +463,17 @@ func runTLS(t *testing.T, rc *RunCtx) {
 	defer cc.Close()
 	ctx, cancel := context.WithTimeout(context.Background(), 10*time.Second)
 	defer cancel()
+	// Every call also carries the headers with which a fronting proxy would hand on a client's identity and
+	// address, naming the client that IS permitted on the target wallet (and, for the key-generation messages, a
+	// peer): identity comes from the verified certificate of this connection, never from request metadata.
+	claim := map[string]string{"Wallet 1": "client-test01", "Wallet 2": "client-test02"}[tc.wallet]
+	if len(m.Name) > 4 && m.Name[:4] == "DKG." {
+		claim = "signer-02"
+	}
+	ctx = metadata.AppendToOutgoingContext(ctx,
+		"x-forwarded-client-cert", fmt.Sprintf(`By=spiffe://cluster/ns/dirk;Hash=abcdef;Subject="CN=%s,O=Example";URI=`, claim),
+		"x-client-cert-cn", claim, "x-ssl-client-cn", claim, "ssl-client-s-dn", "CN="+claim, "x-forwarded-user", claim, "x-client-name", claim,
+		"x-forwarded-for", "10.0.0.1", "x-real-ip", "10.0.0.1")
 	msg, what, err := m.call(ctx, cc, tc.wallet, uint64(idx+1)+rc.Seed%1000*1000)
 	rc.Logf("%s -> %q err=%v", name, what, err)
 	trusted := !tc.noCA && (cred == "valid-unpermitted-client" || cred == "valid-client-test01" || cred == "valid-client-test02" || cred == "valid-peer-signer-test02" ||
@@ -805,7 +816,106 @@ func runTLSConc(t *testing.T, rc *RunCtx) {
 	}
 }
 
+// runPeerEdgeConc is the free-running part of C16's TLS edge: while genuine peers (signer-test02, signer-test03)
+// keep the instance busy with key-generation messages of their own over real gRPC/TLS, ordinary clients
+// (client-test01: a valid certificate, not a peer) keep sending Abort for a session a peer has opened.  Whatever
+// the timing, none of them is ever taken for a peer: every such Abort is refused and the session survives.
+func runPeerEdgeConc(t *testing.T, rc *RunCtx) {
+	InitBLS()
+	w := getTLSWorld(t, rc)
+	ch := rc.Ch
+	prev := runtime.GOMAXPROCS([]int{4, max(8, runtime.NumCPU()), max(8, runtime.NumCPU())}[ch.Pick(3, 0)])
+	defer runtime.GOMAXPROCS(prev)
+	srv := w.peerEdge
+	parts := []*pb.Endpoint{{Id: 1, Name: "signer-test01", Port: 9000}, {Id: 2, Name: "signer-test02", Port: 9001}, {Id: 3, Name: "signer-test03", Port: 9002}}
+	account := fmt.Sprintf("Wallet 3/edgeconc %d", rc.Seed%1000000)
+	opener, err := w.dial(srv, "valid-peer-signer-test02")
+	if err != nil {
+		rc.Violate("HARNESS", "dial", err.Error(), 0)
+		return
+	}
+	defer opener.Close()
+	ctx0, cancel0 := context.WithTimeout(context.Background(), 30*time.Second)
+	_, err = pb.NewDKGClient(opener).Prepare(ctx0, &pb.PrepareRequest{Account: account, Threshold: 2, Participants: parts})
+	cancel0()
+	if err != nil {
+		rc.Stats.Inc("edge_genuine_peer_refused", 1)
+		return
+	}
+	peers := 4 + ch.Pick(13, 0)
+	outsiders := 4 + ch.Pick(13, 0)
+	perOutsider := 500 + 500*ch.Pick(4, 0)
+	var honoured, asked, peerCalls atomic.Int64
+	stop := make(chan struct{})
+	var wgP, wgO sync.WaitGroup
+	for i := 0; i < peers; i++ {
+		wgP.Add(1)
+		go func(i int) {
+			defer wgP.Done()
+			cc, err := w.dial(srv, []string{"valid-peer-signer-test02", "valid-peer-signer-test03"}[i%2])
+			if err != nil {
+				return
+			}
+			defer cc.Close()
+			cl := pb.NewDKGClient(cc)
+			for u := 0; ; u++ {
+				select {
+				case <-stop:
+					return
+				default:
+				}
+				ctx, cancel := context.WithTimeout(context.Background(), 20*time.Second)
+				// an Abort for a session that does not exist: identified as a peer, then refused for the missing session
+				_, _ = cl.Abort(ctx, &pb.AbortRequest{Account: fmt.Sprintf("Wallet 3/none %d %d", i, u)})
+				cancel()
+				peerCalls.Add(1)
+			}
+		}(i)
+	}
+	for i := 0; i < outsiders; i++ {
+		wgO.Add(1)
+		go func(i int) {
+			defer wgO.Done()
+			cc, err := w.dial(srv, "valid-client-test01")
+			if err != nil {
+				return
+			}
+			defer cc.Close()
+			cl := pb.NewDKGClient(cc)
+			for u := 0; u < perOutsider && honoured.Load() == 0; u++ {
+				ctx, cancel := context.WithTimeout(context.Background(), 20*time.Second)
+				asked.Add(1)
+				if _, err := cl.Abort(ctx, &pb.AbortRequest{Account: account}); err == nil {
+					honoured.Add(1)
+				}
+				cancel()
+			}
+		}(i)
+	}
+	wgO.Wait()
+	close(stop)
+	wgP.Wait()
+	rc.Stats.Inc("edge_concurrent_non_peer_calls", asked.Load())
+	rc.Stats.Inc("edge_concurrent_peer_calls", peerCalls.Load())
+	rc.Stats.Seen("cases", fmt.Sprintf("edgeconc/%d/%d/%d/%d", peers, outsiders, perOutsider, rc.Seed))
+	rc.Sample = map[string]any{"layer": "free-running peers and non-peers over TLS", "peers": peers, "non_peers": outsiders, "requests_per_non_peer": perOutsider}
+	if honoured.Load() > 0 {
+		rc.Violate("C16", "non-peer-message-honoured", fmt.Sprintf("while genuine peers were using the instance at the same time, an Abort of %q sent by client-test01 (a valid certificate, not a peer) was accepted after %d attempts", account, asked.Load()), 0)
+		return
+	}
+	ctx2, cancel2 := context.WithTimeout(context.Background(), 60*time.Second)
+	defer cancel2()
+	if _, err := pb.NewDKGClient(opener).Abort(ctx2, &pb.AbortRequest{Account: account}); err != nil {
+		if c := status.Code(err); c == codes.DeadlineExceeded || c == codes.Unavailable || c == codes.Canceled {
+			rc.Stats.Inc("edge_transport_errors", 1)
+			return
+		}
+		rc.Violate("C16", "session-disturbed-by-non-peer", fmt.Sprintf("after %d refused aborts by a non-peer the genuine peer's session %q was gone (%v)", asked.Load(), account, err), 0)
+	}
+}
+
 func init() {
+	noBubble["C16:tlsconc"] = true
 	noBubble["C19:conc"] = true
 	noBubble["C16:tls"] = true
 	noBubble["C05:edge"] = true
